@@ -71,6 +71,7 @@ func genCfg(rng *rand.Rand, profile string) Cfg {
 	}
 	c.Preserve = [][]string{{}, {}, {"name"}, {"name", "email"}}[rng.Intn(4)]
 	c.OneTime = rng.Intn(100) < 65
+	c.DefaultPaths = rng.Intn(100) < 25
 	switch profile {
 	case "lock":
 		c.Mods = ensure(c.Mods, "auth", "lock")
